@@ -5,7 +5,6 @@ package c11
 
 import (
 	"fmt"
-	"os"
 	"strings"
 	"sync"
 	"testing"
@@ -531,5 +530,5 @@ func TestCheck(t *testing.T) {
 	nc := r.Pick(150, 3000)
 	h.Parallel(nc, 8, func(i int) { concurrentRetained(r, i) })
 	r.Count("concurrent_retained_runs", int64(nc))
-	os.Exit(r.Finish(20))
+	h.Exit(r.Finish(20))
 }
